@@ -634,14 +634,29 @@ def rotations(c, rebound, exe):
     c.cov["slerp_shortcut_branch"] = slerp_short
     # simulation / particle rotation = the vector rotation on every particle (positions and velocities),
     # energy and |L| preserved (oracle: exact rational kinetic energy and pair distances)
-    nsim = 60 if c.thorough else 15
+    nsim = 80 if c.thorough else 16
+    sim_rot_var_cases = {}
     for i in range(nsim):
         sim = rebound.Simulation()
         N = rng.randint(2, 6)
         for k in range(N):
             sim.add(m=rng.loguniform(1e-3, 1), x=rng.normal(), y=rng.normal(), z=rng.normal(), vx=rng.normal(), vy=rng.normal(), vz=rng.normal())
-        if i % 3 == 0:
-            sim.add_variation()
+        # variational particles with NON-ZERO data: reb_simulation_irotate must rotate all N particles, a variation
+        # being the derivative of a vector transforms with the same (linear) rotation (theorem c20_rotate_variations)
+        vmode = i % 4
+        v1 = None
+        if vmode in (1, 2):
+            v1 = sim.add_variation()
+        if vmode == 2:
+            sim.add_variation(order=2, first_order=v1)
+            sim.add_variation(testparticle=rng.randint(0, N - 1))
+        if vmode == 3:
+            sim.init_megno(seed=rng.randint(1, 10 ** 6))
+        if vmode in (1, 2):
+            for k in range(N, sim.N):
+                pv = sim.particles[k]
+                pv.m = rng.normal() * 0.1
+                pv.x, pv.y, pv.z, pv.vx, pv.vy, pv.vz = [rng.normal() for _ in range(6)]
         pre = [(p.m, [p.x, p.y, p.z], [p.vx, p.vy, p.vz]) for p in sim.particles]
         E0 = sim.energy(); L0 = sim.angular_momentum()
         o0 = sim.particles[1].orbit(primary=sim.particles[0])
@@ -668,6 +683,39 @@ def rotations(c, rebound, exe):
             wantx = vl(F["vec3d_rotate"](V(*pre[k][1]), r)); wantv = vl(F["vec3d_rotate"](V(*pre[k][2]), r))
             if [d2h(x) for x in [p.x, p.y, p.z, p.vx, p.vy, p.vz]] != [d2h(x) for x in wantx + wantv]:
                 c.corr_break("reb_simulation_irotate differs from reb_vec3d_rotate on particle %d of %d (N_var=%d)" % (k, sim.N, sim.N_var), dict(q=qv, pre=pre[k]))
+        # search: variational particles after Simulation.rotate = exact q v q^-1 of the variational particles before,
+        # and = the finite difference of two rotated shadow simulations (first-order configuration)
+        Mq = frot_matrix(qv)
+        ev = 0.0
+        for k in range(N, sim.N):
+            pk = sim.particles[k]
+            wx = fapply(Mq, fr3(pre[k][1])); wv = fapply(Mq, fr3(pre[k][2]))
+            sck = max([abs(x) for x in pre[k][1] + pre[k][2]] + [1e-300])
+            ev = max(ev, max(abs(float(Fr(a) - b)) for a, b in zip([pk.x, pk.y, pk.z, pk.vx, pk.vy, pk.vz], wx + wv)) / sck)
+        if sim.N > N:
+            note("sim_rotate_variations_vs_exact", ev)
+            sim_rot_var_cases[vmode] = sim_rot_var_cases.get(vmode, 0) + 1
+            if not ev <= 1e-13:
+                fails.append(("sim-rotate-variations", "Simulation.rotate does not rotate the variational particles (N=%d, N_var=%d, mode %d): they are no longer the derivative of the rotated coordinates" % (sim.N, sim.N_var, vmode),
+                              dict(q=qv, N_real=N, N_var=sim.N_var, pre=pre, post=[[p.x, p.y, p.z, p.vx, p.vy, p.vz] for p in sim.particles], err=ev)))
+        if vmode in (1, 2):
+            hstep = 2.0 ** -20
+            sA, sB = rebound.Simulation(), rebound.Simulation()
+            for k in range(N):
+                sA.add(m=pre[k][0], x=pre[k][1][0], y=pre[k][1][1], z=pre[k][1][2], vx=pre[k][2][0], vy=pre[k][2][1], vz=pre[k][2][2])
+                dk = pre[N + k]
+                sB.add(m=pre[k][0], x=pre[k][1][0] + hstep * dk[1][0], y=pre[k][1][1] + hstep * dk[1][1], z=pre[k][1][2] + hstep * dk[1][2],
+                       vx=pre[k][2][0] + hstep * dk[2][0], vy=pre[k][2][1] + hstep * dk[2][1], vz=pre[k][2][2] + hstep * dk[2][2])
+            sA.rotate(r); sB.rotate(r)
+            efd = 0.0
+            for k in range(N):
+                pa_, pb_, pk = sA.particles[k], sB.particles[k], sim.particles[N + k]
+                for f_ in COMPS6:
+                    efd = max(efd, abs((getattr(pb_, f_) - getattr(pa_, f_)) / hstep - getattr(pk, f_)))
+            note("sim_rotate_variations_vs_finite_differences", efd if efd < 1e-3 else 0.0)
+            if not efd <= 1e-7 * max(1.0, max(abs(x) for row in pre for x in row[1] + row[2])):
+                fails.append(("sim-rotate-variations", "variational particles after Simulation.rotate differ from the finite difference of two rotated shadow simulations (%.3g)" % efd,
+                              dict(q=qv, N_real=N, pre=pre, err=efd)))
         l0 = math.sqrt(sum(x * x for x in L0)); l1 = math.sqrt(sum(x * x for x in L1))
         note("sim_rotate_energy", abs(E1 - E0) / abs(E0))
         note("sim_rotate_|L|", abs(l1 - l0) / l0)
@@ -686,6 +734,41 @@ def rotations(c, rebound, exe):
         if not (abs(E1 - E0) <= 1e-12 * abs(E0) + 1e-13 and abs(l1 - l0) <= 1e-12 * l0 and dmax <= 1e-13 and eL <= 1e-12):
             fails.append(("sim-rotate", "Simulation.rotate changes energy / |L| / pair distances", dict(q=qv, pre=pre, dE=E1 - E0, dL=l1 - l0, dd=dmax)))
         c.count(("simrotate", N, i % 3))
+    c.cov["sim_rotate_cases_with_variational_particles_by_mode"] = {"first order": sim_rot_var_cases.get(1, 0), "first+second order+test particle": sim_rot_var_cases.get(2, 0), "megno": sim_rot_var_cases.get(3, 0)}
+    # rotation commutes with the evolution, also for the variational particles (and MEGNO is orientation independent):
+    # rotate-then-integrate = integrate-then-rotate
+    ncomm = 12 if c.thorough else 3
+    for i in range(ncomm):
+        base = rebound.Simulation()
+        base.add(m=1.0)
+        base.add(m=rng.loguniform(1e-5, 1e-3), a=1.0, e=rng.uniform(0, 0.3), inc=rng.uniform(0, 0.5), Omega=rng.uniform(0, 6), omega=rng.uniform(0, 6), f=rng.uniform(0, 6))
+        base.add(m=rng.loguniform(1e-5, 1e-3), a=rng.uniform(1.8, 2.5), e=rng.uniform(0, 0.2), inc=rng.uniform(0, 0.5), Omega=rng.uniform(0, 6), f=rng.uniform(0, 6))
+        megno = (i % 3 == 2)
+        if megno:
+            base.init_megno(seed=rng.randint(1, 10 ** 6))
+        else:
+            va = base.add_variation()
+            vb = base.add_variation(order=2, first_order=va)
+            for k in range(3, base.N):
+                pv = base.particles[k]
+                pv.x, pv.y, pv.z, pv.vx, pv.vy, pv.vz = [rng.normal() for _ in range(6)]
+        qv = runit(rng)
+        r = mkq(qv)
+        T = rng.uniform(0.5, 2.0)
+        s1 = base.copy(); s1.rotate(r); s1.integrate(T)
+        s2 = base.copy(); s2.integrate(T); s2.rotate(r)
+        ec = 0.0
+        for k in range(base.N):
+            a_, b_ = s1.particles[k], s2.particles[k]
+            sck = max([abs(getattr(b_, f_)) for f_ in COMPS6] + [1e-300])
+            ec = max(ec, max(abs(getattr(a_, f_) - getattr(b_, f_)) for f_ in COMPS6) / sck)
+        if megno:
+            ec = max(ec, abs(s1.megno() - s2.megno()) / max(1.0, abs(s2.megno())))
+        note("rotate_commutes_with_evolution_incl_variations", ec)
+        c.count(("rotate-commute", i % 3))
+        if not ec <= 1e-9:
+            fails.append(("sim-rotate-commute", "rotate-then-integrate differs from integrate-then-rotate (real or variational particles%s) by %.3g" % (", MEGNO" if megno else "", ec),
+                          dict(q=qv, T=T, megno=megno, N=base.N, N_var=base.N_var)))
     c.cov["rotation_worst_errors_measured"] = {k: float("%.3g" % v) for k, v in sorted(worst.items())}
     seen = set()
     for key, what, rep in fails:
